@@ -396,7 +396,7 @@ def _plan(prop, T):
                 miri("seg-domains", 1, 8, T, grid_len=24, grid_lo=2, parts="g", reuse_rounds=1),
                 miri("seg-domains", 1, 8, T, parts="x", edge_step=8, reuse_rounds=1),
             ],
-            rule="evaluation = one domain (construction must succeed iff it has > 16 points) or one coordinate whose stored place (hook) must be 31 + ((x-lo) >> s), s least with 32*2^s >= len, with at least 32 + bucket(hi) place lists (every usable place backed by storage), cross-checked by point queries; distinct non-trivial = distinct (coordinate type, lo, len)",
+            rule="evaluation = one domain (construction must succeed iff it has > 16 points) or one coordinate whose stored place (hook) must be 31 + ((x-lo) >> s), s least with 32*2^s >= len, with at least 32 + bucket(hi) place lists (every usable place backed by storage), cross-checked by point queries; every built domain is then cleared and used again (twice) under the same monitors; distinct non-trivial = distinct (coordinate type, lo, len)",
             require={"domains_built": 5000, "domains_reused_after_clear": 5000, "domains_refused_as_required": 1000, "coordinates_checked": 200000, "point_queries_checked": 50000,
                      "domains_with_more_points_than_i64_max": 40},
             exhaustive_claim=True,
@@ -412,7 +412,7 @@ def _plan(prop, T):
                 dict(flavour="rel", suite="seg-bulk", args=dict(mon="query,tiling,layout", max_n=300000), shards=8),
                 miri("seg-pairs", 1, 8, T, mon="query,tiling,layout", variant=0, stride=176),
             ],
-            rule="evaluation = one (insert range, query range) pair on a tree over [0,31]: the value must be yielded exactly once iff the ranges overlap; and per insert the hooked stored places must equal the independent canonical tiling of [a,b] (exact cover, <= 8 copies); distinct non-trivial = distinct ordered pairs + distinct insert ranges",
+            rule="evaluation = one (insert range, query range) pair on a tree over [0,31]: the value must be yielded exactly once iff the ranges overlap; and per insert the hooked stored places must tile [a,b] exactly (every bucket of the range under exactly one place, none outside; any exact tiling passes, not only the canonical decomposition) with <= 8 copies; distinct non-trivial = distinct ordered pairs + distinct insert ranges",
             require={"op_query_full": 2 * 528 * 528, "op_insert": 2 * 528, "dumps_checked": 500000},
             exhaustive_claim=True,
             exhaustive_scope="all 528 x 528 ordered pairs of bucket ranges and all 528 place masks (finite space, fully enumerated in dbg and rel)",
@@ -431,7 +431,7 @@ def _plan(prop, T):
                 exp_types("dbg", "purge", "seg", "seg", T),
                 exp_types("rel", "purge", "seg", "seg", T),
             ],
-            rule="evaluation = one hooked dump after a fully consumed query: after a whole-domain query at t no stored copy has expiration < t and the copy count equals the copies of unexpired values; after a partial query no expired copy remains in any scanned list; after every operation no unexpired value has lost a copy; distinct non-trivial = distinct (stored bucket ranges, query) cases",
+            rule="evaluation = one hooked dump after a fully consumed query: after a whole-domain query at t no stored copy has expiration < t; after a partial query no expired copy remains in any list of the independently computed visit set; distinct non-trivial = distinct (stored bucket ranges, query) cases",
             require={"typed_seg_purges_checked": 100000, "purge_checked_after_whole_domain_query": 50000, "purge_checked_after_partial_domain_query": 50000, "query_over_expired_value": 50000},
             exhaustive_scope="sampled histories; the 528x528 pairs in the expiring variant",
             assumptions=["dump hook is faithful", "independent visit set: leaves of the query range and all their ancestors"],
@@ -450,7 +450,7 @@ def _plan(prop, T):
                 dict(flavour="rel", suite="dup-held", args=dict(), shards=16, budget=96000 * (8 if T else 1), seed_offset=6),
                 miri("dup-held", 24, 4, T),
             ],
-            rule="evaluation = one held handle re-checked after later insertions / lookups: value_by_index(handle) is still the same entry and first_index_less(key) == handle; distinct non-trivial = distinct (reference key set, number of held handles) + closed canonical shapes",
+            rule="evaluation = one held handle re-checked after later insertions / lookups: value_by_index(handle) is still the same entry and first_index_less(key) == handle (stationary mixes, phased fill / drain / hold / refill histories, duplicate-key insertions, ordered fills across every arena growth); distinct non-trivial = distinct (reference key set, number of held handles) + closed canonical shapes",
             require={"held_handles_rechecked": 200000, "held_handles_rechecked_after_duplicate_insert": 1000000, "handles_taken": 50000, "states": 3000, "max_entries_built": 1500000, "growth_checkpoints_with_held_handles": 100},
             exhaustive_scope="every reachable shape over the listed universes x a handle for every stored key x every sequence of 2 (thorough: 3) further insertions",
             assumptions=["handles are re-acquired after every deletion / clear, as the property allows", "after an insertion that repeats a stored key only the handles of OTHER keys are re-checked, and that key's handle is dropped for good"],
